@@ -7,7 +7,9 @@ use crate::scen::{Scenario, Tier};
 use crate::scen_fault::FailStop;
 use crate::scen_foreign::{ForeignOpen, LazyOpen, PartialOpen};
 use crate::scen_hist::History;
+use crate::scen_hostile::{HostileCorpus, HostileMutate, HostileSweep};
 use crate::scen_life::Lifecycle;
+use crate::scen_misc::{Codec, HeaderFaults, HeaderRandom, Rejections};
 use crate::scen_stream::{Fragmentation, SyncAsync};
 use crate::scen_write::{Canonical, StartPos, TornWrite};
 
@@ -65,6 +67,20 @@ pub fn plan(prop: &str, tier: Tier) -> Option<Plan> {
             ("C17", "fault_enumeration", vec![b(TornWrite, 250, 15_000, t)])
         }
         "C18" => ("C18", "exploration", vec![b(StartPos, 1500, 100_000, t)]),
+        "C09" => {
+            assumptions.push("the exhaustive sweep over all 2^32 stored coordinate values is not attempted (that is enumeration, not simulation); stored values are sampled incl. boundaries".into());
+            ("C09", "exploration", vec![b(HeaderFaults, 0, 0, t), b(HeaderRandom, 60_000, 20_000_000, t)])
+        }
+        "C14" => {
+            assumptions.push("gzip output is additionally decoded by CPython zlib on a sample when python3 is present".into());
+            ("C14", "exploration", vec![b(Codec, 3000, 300_000, t)])
+        }
+        "C19" => ("C19", "exploration", vec![b(Rejections, 3000, 300_000, t), b(History { prop: "C19" }, 3000, 300_000, t)]),
+        "C08" => {
+            assumptions.push("inputs whose directories declare more than 2^20 tiles/steps (measured by the iterative reference walker) are outside the claim and skipped (counted)".into());
+            assumptions.push("a single allocation request above 8 GiB is refused by the harness allocator (deterministic stand-in for 'aborting on an absurd allocation')".into());
+            ("C08", "exploration", vec![b(HostileCorpus, 0, 0, t), b(HostileSweep, 0, 0, t), b(HostileMutate, 15_000, 1_500_000, t)])
+        }
         _ => return None,
     };
     Some(Plan { prop: p, level, batches, assumptions, real: REAL.to_vec(), stubs: STUBS.to_vec() })
